@@ -20,6 +20,9 @@
   protocol (threads_stop + wait for THR_IDLE) is modelled separately and minimally in `namespace OldReinit` at the end,
   where the lost-worker and stale-progress states are exhibited.
 
+  Invariants and their preservation: Lemmas/MtEncA..I.lean; theorems: Props/C08.lean; trace replay: Driver/C08.lean.
+  threads_stop(coder, false) on an error return is one atomic step (`stopAll`); threads_end() is per worker (`mExitOne`/`mExitIdle`).
+
   Not modelled: allocation failures other than through the generic worker error / get_thread error events, the
   lzma_code() wrapper's LZMA_BUF_ERROR and action-consistency checks (C11), LZMA_SYNC_FLUSH (unsupported by this encoder),
   the outbuf cache.
